@@ -195,6 +195,7 @@ package getoptions
 //@   requires parse.tree: tree != nil && TreeOK()
 //@   requires parse.unk: UnkOK()
 //@   onlyflows mode isOption {C07}
+//@   atcall isOption mode.fixed {C07}: $arg1 == old(mode)
 //@   allocates option.Option, []string, sliceiterator.Iterator
 //@   modifies programTree.ChildText, programTree.UnknownOptions, option.Option.Called, option.Option.UsedAlias, option.Option.MapKeysToLower,
 //@     cell(bool), cell(string), cell(int), cell(float64), cell([]string), cell([]int), cell([]float64), allmaps(map[string]string)
@@ -407,6 +408,7 @@ package getoptions
 //@ func (*GetOpt).Parse
 //@   props C19
 //@   requires parse.gopt: gopt != nil && gopt.programTree != nil && TreeOK() && UnkOK()
+//@   atcall parseCLIArgs mode.root {C07}: $arg0 == "" ==> $arg1 == gopt.programTree && $arg3 == gopt.programTree.mode
 //@   modifies gopt.finalNode, programTree.ChildText, programTree.UnknownOptions, option.Option.Called, option.Option.UsedAlias, option.Option.MapKeysToLower,
 //@     cell(bool), cell(string), cell(int), cell(float64), cell([]string), cell([]int), cell([]float64), allmaps(map[string]string),
 //@     $out, $compout, $out_other, $exits, $exitcode
